@@ -172,6 +172,23 @@ def cpu_cases():
     return out
 
 
+def count_lies():
+    """header fields that announce a quantity (descriptors) far beyond what the message holds"""
+    out = []
+    for n in (0, 1, 3, 2 ** 16, 2 ** 22, 2 ** 27, 2 ** 31 - 1, 2 ** 32 - 1):
+        for le in (True, False):
+            for sg, body in (('h', b'\0\0\0\0'), ('s', b'\x01\0\0\0x\0'), (None, b'')):
+                if not le and body[:1] == b'\x01':
+                    body = b'\0\0\0\x01x\0'
+                fields = [('path', '/p'), ('member', 'M'), ('unix_fds', n)]
+                try:
+                    raw = refwire.msg(1, 81, fields, sg, None, le=le, body_raw=body)
+                except Exception:
+                    continue
+                out.append(('unix_fds=%d sig=%s' % (n, sg), raw, 4))
+    return out
+
+
 def run_cpu_child(cases):
     """decode the cases in a child with RLIMIT_CPU; returns recs (the case the child died in is
     recorded as outcome 'killed')"""
@@ -190,11 +207,12 @@ def run_cpu_child(cases):
     for i, (name, raw, nsig) in enumerate(cases):
         if i in got:
             recs.append({'len': len(raw), 'siglen': nsig + 16, 'calls': 0, 'outcome': got[i]['outcome'],
-                         'cpu_ms': got[i]['cpu_ms']})
+                         'cpu_ms': got[i]['cpu_ms'], 'mem_kb': got[i]['mem_kb']})
         else:
             if p.returncode >= 0 and i == len(got):
                 raise core.Machinery('c05_child failed: rc=%s %s' % (p.returncode, p.stderr.decode()[-400:]))
-            recs.append({'len': len(raw), 'siglen': nsig + 16, 'calls': 0, 'outcome': 'killed', 'cpu_ms': CPU_LIMIT * 1000})
+            recs.append({'len': len(raw), 'siglen': nsig + 16, 'calls': 0, 'outcome': 'killed', 'cpu_ms': CPU_LIMIT * 1000,
+                         'mem_kb': 0})
             break
     return recs
 
@@ -254,7 +272,7 @@ def run(tier, seed):
             nsig = 64
             b = bound(len(data), nsig)
             out, calls, r = counted(lambda: message.parseMessage(data, []), 4 * b)
-            recs.append({'len': len(data), 'siglen': nsig, 'calls': calls, 'outcome': out, 'cpu_ms': 0})
+            recs.append({'len': len(data), 'siglen': nsig, 'calls': calls, 'outcome': out, 'cpu_ms': 0, 'mem_kb': 0})
             descr.append((name, data))
             if len(recs) % 400 == 0:        # a valid message on "another connection", in between
                 j = (len(recs) // 400) % len(valid)
@@ -262,16 +280,17 @@ def run(tier, seed):
     for name, raw, nsig in hostile_messages(rng):
         b = bound(len(raw), nsig + 16)
         out, calls, r = counted(lambda: message.parseMessage(raw, []), 4 * b)
-        recs.append({'len': len(raw), 'siglen': nsig + 16, 'calls': calls, 'outcome': out, 'cpu_ms': 0})
+        recs.append({'len': len(raw), 'siglen': nsig + 16, 'calls': calls, 'outcome': out, 'cpu_ms': 0, 'mem_kb': 0})
         descr.append((name, raw))
     for j in range(len(valid)):
         iso.append((j, len(recs), {'before': before[j], 'after': decode_valid(valid[j])}))
     # work inside single C calls is invisible to the call counter: the sibling-container family (and the
     # hostile signatures above) is decoded again in a child process under a CPU limit, CPU time recorded
-    cc_cases = cpu_cases() + hostile_messages(rng)
+    cc_cases = cpu_cases() + hostile_messages(rng) + count_lies()
     crecs = run_cpu_child(cc_cases)
     chk.notes['cpu_timed_inputs'] = len(crecs)
     chk.notes['worst_cpu_ms'] = max(r['cpu_ms'] for r in crecs)
+    chk.notes['worst_mem_kb'] = max(r['mem_kb'] for r in crecs)
     recs.extend(crecs)
     descr.extend((n_, raw_) for n_, raw_, _ in cc_cases[:len(crecs)])
     traces = [[({'n': 'Init'}, {'rec': r})] for r in recs]
@@ -285,7 +304,7 @@ def run(tier, seed):
     for ti, _, _ in rej[:5]:
         name, data = descr[ti]
         chk.violation('hostile input (%s, %d bytes): %s after %d calls, %d ms CPU' % (
-            name, len(data), recs[ti]['outcome'], recs[ti]['calls'], recs[ti]['cpu_ms']),
+            name, len(data), recs[ti]['outcome'], recs[ti]['calls'], recs[ti]['cpu_ms']) + ', %d KB allocated' % recs[ti]['mem_kb'],
                       dict(kind='code->spec', module='c05', mutation=name, data=list(data[:400]), rec=recs[ti]))
     chk.sample({'mutation': descr[len(descr) // 2][0], 'rec': recs[len(descr) // 2]})
     # isolation: hostile inputs leave nothing behind that changes how valid messages decode
@@ -299,7 +318,7 @@ def run(tier, seed):
         chk.violation('valid message %d decodes differently after %d hostile inputs were decoded in the same process: %r -> %r' % (
             j, after_n, r['before'], r['after']), dict(kind='code->spec isolation', module='c05', rec=r, after_hostile_inputs=after_n))
     # ---- canary
-    bad = dict(recs[0], outcome='budget')
+    bad = dict(recs[0], outcome='budget', mem_kb=0)
     rej, _ = core.validate_traces('MC_Decoder', OBS, [[({'n': 'Init'}, {'rec': bad})]], {}, cfg_consts=cc,
                                   initpred='Dummy /\\ TraceWork', nproc=1)
     chk.canary = {'what': 'a recorded decode relabelled as having exhausted its budget', 'rejected': bool(rej)}
